@@ -17,6 +17,7 @@ OBLIGATIONS = [
     "NanoVerif.C02.regroup_perm",
     "NanoVerif.C16.linParam_affine",
     "NanoVerif.C16.radial_similarity",
+    "NanoVerif.TrProofs.map_otsvg_space_eq",
 ]
 DESIGN_REF = "DESIGN.md §5 C02"
 LEVEL_TEXT = ("Partial proof (per-element theorems + sampling of real documents). Proved in Lean: the OT-SVG placement affine equals the y-flipped "
